@@ -365,6 +365,7 @@ def pmap(fn, args, secs=5.0, procs=None):
     return _settle(fn, args, secs, out)
 
 
+TRANSLATOR_ERRORS = []      # fail-closed translator refusals met while cases were generated (reported as a broken tie)
 SUSPECT = set()             # indices (of the last pmap call) whose result comes from a tainted worker
 RECHECK_LIMIT = 200
 
